@@ -35,7 +35,11 @@ BagEq(a, b) == Len(a) = Len(b) /\ \A k \in 1..Len(a) :
 \* recorded log order is adopted when it is a permutation of the predicted one
 XOf(op) ==
     LET x == IStep(op) IN
-    IF op.k = "remove_dir_all" /\ E.hasst /\ BagEq(x.S.pend, E.st.pend) THEN [x EXCEPT !.S.pend = E.st.pend] ELSE x
+    \* torn writes: the tearing choice is read off the recorded persisted files
+    IF op.k = "crash" /\ BlockSize > 0 /\ E.hasst
+    THEN LET fits == {f \in CrashChoices : PfSeq(CrashS([St EXCEPT !.pf = f]).pf) = E.st.pf}
+         IN IF fits = {} THEN x ELSE I_CrashF(op, CHOOSE f \in fits : TRUE)
+    ELSE IF op.k = "remove_dir_all" /\ E.hasst /\ BagEq(x.S.pend, E.st.pend) THEN [x EXCEPT !.S.pend = E.st.pend] ELSE x
 
 TOp ==
     /\ E.ev = "op" /\ ~skipping
